@@ -22,6 +22,9 @@ type BFSModel struct {
 type BFSOpts struct {
 	UnprunedDepth int // histories up to this depth are explored without state matching
 	MaxDepth      int // maximal history length (including the probe operation)
+	// Part/Parts split the search over several executions (run in parallel by the driver): this execution explores the
+	// histories whose first operation op satisfies op % Parts == Part (Parts == 0: everything). States are matched per part.
+	Part, Parts int
 }
 
 // BFS explores the model breadth first and reports violations through x.
@@ -60,6 +63,9 @@ func BFS(x *Exec, m *BFSModel, o BFSOpts) {
 			continue
 		}
 		for op := 0; op < m.NumOps; op++ {
+			if len(n.h) == 0 && o.Parts > 0 && op%o.Parts != o.Part {
+				continue
+			}
 			out, idle, full, bad := m.Run(n.h, op)
 			transitions++
 			d := len(n.h) + 1
